@@ -1,6 +1,7 @@
 package main
 
 import (
+	"go/types"
 	"fmt"
 	"go/ast"
 	"go/token"
@@ -915,6 +916,7 @@ func runR_C14(c *Ctx) {
 	hashCoreRules(c, false)
 	sortLessRules(c)
 	compareCoreRules(c)
+	g9Methods(c, methodSpec{"hash.hasHashMethod", "Hash", 0, 1, types.Invalid}, methodSpec{"equal.equalMethodInputParam", "Equal", 1, 1, types.Bool})
 	c.Rep.floor("R-guard", 11)
 }
 
